@@ -1,47 +1,27 @@
-//! scratch probes (not registered): cost of single operations
+//! scratch probes (not registered)
 use super::shape_common::*;
 use super::*;
 
 const VEC2: u8 = ValueKind::Vec2 as u8;
 
-macro_rules! probe {
-    ($name:ident, $unwind:expr, |$x:ident, $y:ident| $body:block) => {
-        #[kani::proof]
-        #[kani::unwind($unwind)]
-        fn $name() {
-            let $x: u8 = kani::any();
-            let $y: u8 = kani::any();
-            $body
-        }
-    };
+fn via_question_mark(rd: &mut &[u8]) -> Result<(), DeserializeError> {
+    Deserializer::new(rd, 0).unwrap().deserialize_vec2()?.skip()
 }
 
-probe!(q1_skip_vec2, 10, |x, y| { let e = [VEC2, SOME, U8, x, SOME, U8, y, NONE]; let (r, c) = run_skip(&e, 0); assert!(r.is_ok() && c == 8); });
-probe!(q2_value_vec2, 10, |x, y| { let e = [VEC2, SOME, U8, x, SOME, U8, y, NONE]; let (r, c) = run_value(&e, 0); assert!(r.is_ok() && c == 8); std::mem::forget(r); });
-probe!(q3_value_nested, 10, |x, y| { let e = [VEC2, SOME, VEC2, SOME, U8, x, NONE, NONE]; let (r, c) = run_value(&e, 0); assert!(r.is_ok() && c == 8); std::mem::forget(r); });
-probe!(q4_skip_symd, 10, |x, y| {
-    let e = [SOME, U8, x];
-    let d: u8 = kani::any();
-    kani::assume(d <= 32);
-    let (r, c) = run_skip(&e, d);
-    assert!(r.is_ok() == (d <= 30));
-});
-probe!(q5_ser_value_some, 10, |x, y| {
-    let e = [SOME, U8, x];
-    let val = Value::Some(Box::new(Value::U8(x)));
-    check_serialized_at(&e, 2, 0, &|s: Serializer| s.serialize(&val));
-    std::mem::forget(val);
-});
-probe!(q6_check_value_some, 10, |x, y| {
-    let e = [SOME, U8, x];
-    let val = Value::Some(Box::new(Value::U8(x)));
-    check_value_at(&e, 2, 0, &val);
-    std::mem::forget(val);
-});
-probe!(q7_skip_vec2_symd, 10, |x, y| {
-    let e = [VEC2, SOME, U8, x, NONE];
-    let d: u8 = kani::any();
-    kani::assume(d <= 32);
-    let (r, c) = run_skip(&e, d);
-    assert!(r.is_ok() == (d <= 30));
-});
+#[kani::proof]
+#[kani::unwind(4)]
+fn o1_question_mark() {
+    let e = [VEC2, NONE];
+    let mut rd: &[u8] = &e;
+    assert!(via_question_mark(&mut rd).is_ok() && rd.is_empty());
+}
+
+#[kani::proof]
+#[kani::unwind(10)]
+fn o2_skip_vec2() {
+    let x: u8 = kani::any();
+    let y: u8 = kani::any();
+    let e = [VEC2, SOME, U8, x, SOME, U8, y, NONE];
+    let (r, c) = run_skip(&e, 0);
+    assert!(r.is_ok() && c == 8);
+}
